@@ -108,6 +108,8 @@ pub struct Scope {
     type_aliases: IndexMap<String, u32>,
     /// The map of resource names to their encoded indexes.
     resources: IndexMap<String, u32>,
+    /// The interfaces the component type being encoded imports by path.
+    path_imports: Vec<InterfaceId>,
     /// The encodable for this scope.
     encodable: Encodable,
 }
@@ -372,6 +374,18 @@ impl<'a> TypeEncoder<'a> {
 
         state.push(Encodable::Component(ComponentType::default()));
 
+        // An interface the world imports by path is imported once and in full,
+        // even when it is first reached as a dependency of a `use` or of
+        // another imported interface
+        state.current.path_imports = world
+            .imports
+            .iter()
+            .filter_map(|(name, kind)| match kind {
+                ItemKind::Instance(id) if self.0[*id].id.as_deref() == Some(name) => Some(*id),
+                _ => None,
+            })
+            .collect();
+
         for used in world.uses.values() {
             self.import_deps(state, used.interface);
         }
@@ -412,7 +426,8 @@ impl<'a> TypeEncoder<'a> {
 
         log::debug!("encoding dependency on interface `{iid}`");
 
-        let index = self.instance(state, id, !state.scopes.is_empty());
+        let types_only = !state.scopes.is_empty() && !state.current.path_imports.contains(&id);
+        let index = self.instance(state, id, types_only);
         let import_index = state.current.encodable.instance_count();
 
         state
@@ -705,6 +720,16 @@ impl<'a> TypeEncoder<'a> {
         if let ItemKind::Type(Type::Resource(id)) = kind {
             self.import_resource(state, name, id);
             return;
+        }
+
+        // Check to see if this is an import of an interface that's already been
+        // imported in full as a dependency of an earlier item
+        if let ItemKind::Instance(id) = kind {
+            if state.current.path_imports.contains(&id)
+                && state.current.instances.contains_key(name)
+            {
+                return;
+            }
         }
 
         log::debug!("encoding {kind} import `{name}`", kind = kind.desc(self.0));
